@@ -1,6 +1,7 @@
 import RsddModel.Driver.SddStream
 import RsddModel.Driver.OrdStream
 import RsddModel.Model.BddCompile
+import RsddModel.Model.SddCompile
 /-!
 # Driver: the `comp` stream (C05)
 
@@ -112,6 +113,20 @@ def checkCompLine (kvs : List (String × String)) (rhs : String) : String := Id.
     | some dt =>
       if (Bdd.runCompileDtree order (dtreeToLocal dt)).map printBdd != some planS then return "FAIL MODEL compile_plan(from_dtree)"
     | none => return "FAIL MODEL dtree"
+  -- mirrored SDD compile drivers (compressing builder: canonical prints must coincide)
+  match (lookup kvs "vtree").bind parseVTree with
+  | none => return "FAIL PARSE vtree"
+  | some vt =>
+    let canon (p : Option Sdd.Ptr) : Option String := p.map fun q => (Sdd.printCanon q).replace " " "_"
+    if canon (Sdd.runCompileCnf vt true cs) != lookup okv "scnf" then
+      return s!"FAIL MODEL SDD compile_cnf: model {canon (Sdd.runCompileCnf vt true cs)} implementation {lookup okv "scnf"}"
+    if canon (Sdd.runCompileExpr vt true e) != lookup okv "sexpr" then
+      return s!"FAIL MODEL SDD compile_logical_expr: model {canon (Sdd.runCompileExpr vt true e)} implementation {lookup okv "sexpr"}"
+    if splan != "skipped" then
+      match VT.DTree.fromCnf cs elim with
+      | some dt =>
+        if canon (Sdd.runCompileDtree vt true (dtreeToLocal dt)) != some splan then return "FAIL MODEL SDD compile_plan(from_dtree)"
+      | none => return "FAIL MODEL dtree"
   return s!"ok nontrivial={if isNontrivial c1 || isNontrivial ex then 1 else 0}"
 
 end Driver
